@@ -456,7 +456,7 @@ bool PedersenCommitmentScheme::Verify
 	try
 	{
 		// Check whether $r < q$ holds 
-		if (mpz_cmp(r, q) >= 0)
+		if ((mpz_sgn(r) < 0) || (mpz_cmp(r, q) >= 0))
 			throw false;
 
 		// Compute the commitment for verification
